@@ -2,6 +2,7 @@ package main
 
 import (
 	"fmt"
+	"go/token"
 	"go/types"
 	"sort"
 	"strings"
@@ -14,6 +15,8 @@ func runC10(c *Ctx, r *Report) {
 	r.Rule("C10.R2", "transient state is restored on the error path: from the first write of such a field every path to a return passes the restoring write")
 	r.Rule("C10.R4", "a reset is independent of what it discards: the value State.Reset writes into a field is not computed from any field that Reset itself rewrites (the session scope comes from a field set at creation, not from the current scope)")
 	r.Rule("C10.R5", "recovery touches nothing else: every field State.Reset writes is one of the transient fields derived for R1 (swapped around evaluation); session state (macro store, cache, extensions, limits) is not reset by a failed input")
+	r.Rule("C10.R6", "a timeout leaves nothing behind: the arm of evalInternal taken when the input's context has expired, and the functions of package eval it calls, store into no field of the State")
+	c.checkExpiredContextWritesNothing(r, "C10.R6")
 	r.Rule("C10.R3", "fresh context per input: EvalOne installs a new context and defers its cancel before evaluating (shared with C09.R5)")
 	r.Rule("C04.R1", "(shared) failed calls leave nothing in the function cache: Cache.Set is confined to non-error results")
 	r.Rule("C05.R1", "(shared) registers acquired on the session environment are released on every exit, including panics (defer)")
@@ -363,4 +366,90 @@ func (c *Ctx) resetFunctions() []*ssa.Function {
 		})
 	}
 	return res
+}
+
+// checkExpiredContextWritesNothing: rule C10.R6.
+//
+// A timeout must not leave anything behind for the next input. In evalInternal the arm taken when the input's
+// context has expired (the true edge of `s.Context.Err() != nil`) builds the error and returns: neither that arm
+// nor the functions of package eval it calls (transitively, three levels) store into a field of the State. A
+// value remembered there (an error built once and reused) is what a later, different, timeout would report.
+func (c *Ctx) checkExpiredContextWritesNothing(r *Report, rule string) {
+	stateT := c.TypeNamed("eval", "State")
+	ev := c.SSAFn(c.Fn("eval", "State.evalInternal"))
+	var arm *ssa.BasicBlock
+	for _, b := range ev.Blocks {
+		ifi, ok := b.Instrs[len(b.Instrs)-1].(*ssa.If)
+		if !ok {
+			continue
+		}
+		bin, ok := ifi.Cond.(*ssa.BinOp)
+		if !ok || bin.Op != token.NEQ || !isNilConst(bin.Y) {
+			continue
+		}
+		call, ok := bin.X.(*ssa.Call)
+		if !ok || !call.Common().IsInvoke() || call.Common().Method.Name() != "Err" {
+			continue
+		}
+		if ld, ok := call.Common().Value.(*ssa.UnOp); ok && isFieldAddrOf(ld.X, stateT, "Context") {
+			arm = b.Succs[0]
+			break
+		}
+	}
+	if arm == nil {
+		r.Undecided("%s: the expired-context test of evalInternal was not found", rule)
+		return
+	}
+	inArm := func(b *ssa.BasicBlock) bool { return b == arm || (len(arm.Preds) == 1 && arm.Dominates(b)) }
+	stateStore := func(in ssa.Instruction) string {
+		st, ok := in.(*ssa.Store)
+		if !ok {
+			return ""
+		}
+		fa, ok := st.Addr.(*ssa.FieldAddr)
+		if !ok {
+			return ""
+		}
+		if n := namedStruct(fa.X.Type()); n != nil && n.Obj() == stateT.Obj() {
+			return n.Underlying().(*types.Struct).Field(fa.Field).Name()
+		}
+		return ""
+	}
+	var writes []string
+	seen := map[*ssa.Function]bool{}
+	var visit func(fn *ssa.Function, depth int)
+	visit = func(fn *ssa.Function, depth int) {
+		if seen[fn] || depth > 3 {
+			return
+		}
+		seen[fn] = true
+		eachInstr(fn, func(in ssa.Instruction) {
+			if f := stateStore(in); f != "" {
+				writes = append(writes, c.Pos(in.Pos())+": "+ssaFuncName(fn)+" writes State."+f)
+			}
+			if call, ok := in.(ssa.CallInstruction); ok {
+				if h := call.Common().StaticCallee(); h != nil && h.Pkg == ev.Pkg && len(h.Blocks) > 0 {
+					visit(h, depth+1)
+				}
+			}
+		})
+	}
+	for _, b := range ev.Blocks {
+		if !inArm(b) {
+			continue
+		}
+		for _, in := range b.Instrs {
+			if f := stateStore(in); f != "" {
+				writes = append(writes, c.Pos(in.Pos())+": evalInternal writes State."+f)
+			}
+			if call, ok := in.(ssa.CallInstruction); ok {
+				if h := call.Common().StaticCallee(); h != nil && h.Pkg == ev.Pkg && len(h.Blocks) > 0 {
+					visit(h, 1)
+				}
+			}
+		}
+	}
+	sort.Strings(writes)
+	r.Check(len(writes) == 0, rule, ssaFuncName(ev), "the expired-context arm stores nothing in the State", c.Pos(arm.Instrs[0].Pos()),
+		"reporting a timeout writes a field of the long-lived State ("+strings.Join(writes, "; ")+"): what one failing input leaves there is read by the next one (an error built once is what every later timeout reports, stack included)")
 }
